@@ -3,7 +3,14 @@ package main
 // One PRNG for every random choice (splitmix64), seeded from VERIF_SEED, so runs replay exactly.
 type Rng struct{ s uint64 }
 
-func NewRng(seed uint64) *Rng { return &Rng{s: seed*0x9E3779B97F4A7C15 + 0x1234567} }
+// NewRng mixes the seed (so that nearby seeds give unrelated streams).
+func NewRng(seed uint64) *Rng {
+	z := seed + 0x632BE59BD9B4E019
+	z = (z ^ (z >> 30)) * 0xBF58476D1CE4E5B9
+	z = (z ^ (z >> 27)) * 0x94D049BB133111EB
+	z = z ^ (z >> 31)
+	return &Rng{s: z*0x2545F4914F6CDD1D + 0x1234567}
+}
 func (r *Rng) U64() uint64 {
 	r.s += 0x9E3779B97F4A7C15
 	z := r.s
